@@ -2,7 +2,8 @@
 
    PARTIAL: bash 5.2 and jq 1.6 interpret the framework and are not modelled; the
    theorems are about the table of handler names and the loop of hook::run as modelled
-   in C19_Model.v (names are atoms: binding names without blanks or glob characters).
+   in C19_Model.v (names are byte strings of any content: the repaired hook.sh, a686454, quotes every
+   expansion - see the section on the characters of binding names at the end).
 
    Full statement (every array of contexts the operator can produce, every set of
    defined handlers, every pattern of handler results):
@@ -29,7 +30,7 @@
    (C19_config_meets_spec_partial, C19_config_mode_meets_spec) and accepts nothing else
    (C19_spec_demands_verbatim, C19_spec_demands_failure). *)
 From Coq Require Import String.
-From Verif Require Import Common C19_Model C19_Spec C19_Proofs.
+From Verif Require Import Common C19_Model C19_Spec C19_Proofs C19_WModel C19_WSpec C19_WProofs.
 
 Definition C19_full_statement : Prop := forall i, in_domain i = true -> P i (run_i i) = true.
 
@@ -276,3 +277,121 @@ Proof.
   split; [reflexivity|]. split; [right; left; reflexivity|].
   repeat split; try (vm_compute; reflexivity). vm_compute. discriminate.
 Qed.
+
+(* ====================================================================================
+   The CHARACTERS of binding names (group names, versions).
+
+   CURRENT CODE (after the repair a686454 of frameworks/shell/hook.sh): the candidate names are
+   kept one per line, read with `mapfile -t`, and every expansion is quoted - a name is one word
+   whatever blanks, tabs, glob characters, quotes, backslashes or $ it contains.  C19_Model is
+   that code with names read as ARBITRARY byte strings (a newline would still separate two
+   lines and a NUL does not pass a command substitution: such strings are outside the
+   correspondence, C19_Corr.outside; the theorems need no hypothesis on the strings).
+
+   PW = PC + the clause own_context (invocation k has BINDING_CONTEXT_CURRENT_INDEX = k, the
+   binding name of context k and the handler chosen for context k, whatever the strings of the
+   contexts before k are). *)
+
+(* for all arrays of contexts with arbitrary strings, outside F20's trigger T only *)
+Theorem C19_names_meet_spec_partial : forall i,
+  in_domain (to_input (ic_in i)) = true -> T (to_input (ic_in i)) = false -> PW i (runC_i i) = true.
+Proof. exact names_meet_spec. Qed.
+Print Assumptions C19_names_meet_spec_partial.
+
+(* Whatever the strings of the contexts 0..n-1 are (two arrays [pre1], [pre2] of the same
+   length, arbitrary contexts, both served without a failure): the run over pre ++ rest is
+   the run over pre followed by ONE AND THE SAME continuation - the dispatch of [rest]
+   numbered from n - same handlers, same BINDING_CONTEXT_CURRENT_INDEX and binding, same
+   commands started, same exit status.  No hypothesis on any string. *)
+Theorem C19_dispatch_of_context_is_local : forall defined bodies pre1 pre2 rest,
+  length pre1 = length pre2 ->
+  passesB defined bodies 0%N pre1 -> passesB defined bodies 0%N pre2 ->
+  exists tail,
+    dispatchB defined bodies (pre1 ++ rest) = glue (dispatchB defined bodies pre1) tail /\
+    dispatchB defined bodies (pre2 ++ rest) = glue (dispatchB defined bodies pre2) tail /\
+    tail = dispatchB_from defined bodies (N.of_nat (length pre1)) rest.
+Proof. exact dispatchB_local. Qed.
+Print Assumptions C19_dispatch_of_context_is_local.
+
+(* ... and that continuation begins with the first defined candidate of ITS first context
+   alone, invoked with that context's number and binding name *)
+Theorem C19_dispatch_head_is_own_context : forall defined bodies i c rest h,
+  first_defined defined (candidates c) = Some h ->
+  exists t s f, dispatchB_from defined bodies i (c :: rest) = ((h, i, cur_binding c) :: t, s, f).
+Proof. exact dispatchB_head. Qed.
+Print Assumptions C19_dispatch_head_is_own_context.
+
+(* the clause own_context is a consequence of the property's predicate, not an addition to it *)
+Theorem C19_own_context_from_P : forall i o, P i o = true -> own_context i o = true.
+Proof. exact P_own. Qed.
+Print Assumptions C19_own_context_from_P.
+
+(* Non-vacuity: arrays whose FIRST contexts carry names with blanks, a tab, quotes, `$`, a
+   backslash, a shell keyword, glob characters and an empty name, followed by a context with its
+   own handler; the hypotheses of the three theorems are met, and the regression witnesses of the
+   repaired defects ("Monitor pods in cache tier", "every minute" beside __on_schedule::every,
+   "what?") are served by __main__ now. *)
+Definition exw_pre1 : list ctx :=
+  [ mkCtx (Some (B "Every 20  minutes")) (Some (B "Schedule")) None None None None;
+    mkCtx (Some (9%N :: B " say ""hi"" $HOME a\b ")) (Some (B "Event")) (Some (B "Modified")) None None None ].
+Definition exw_pre2 : list ctx :=
+  [ mkCtx (Some (B "Monitor pods in cache tier")) (Some (B "Event")) (Some (B "Added")) None None None;
+    mkCtx (Some (B "what? [a] *")) (Some (B "Synchronization")) None None None None ].
+Definition exw_rest : list ctx :=
+  [ mkCtx (Some (B "pods")) (Some (B "Event")) (Some (B "Added")) None None None ].
+Definition exw_defined : list name := [B "__on_kubernetes::pods::added"; B "__main__"; B "__on_schedule::Every"].
+Definition exw_input (pre : list ctx) : inputC :=
+  mkInputC (mkInputB [] exw_defined (fun _ _ => [Plain 0%N]) (pre ++ exw_rest)) [].
+
+Example C19_names_hyp_met :
+  (forall pre, pre = exw_pre1 \/ pre = exw_pre2 ->
+     in_domain (to_input (ic_in (exw_input pre))) = true /\ T (to_input (ic_in (exw_input pre))) = false /\
+     passesB exw_defined (fun _ _ => [Plain 0%N]) 0%N pre /\
+     map (fun e => fst (fst e)) (o_trace (ob_obs (oc_run (runC_i (exw_input pre))))) =
+       [B "__main__"; B "__main__"; B "__on_kubernetes::pods::added"] /\
+     nth_error (o_trace (ob_obs (oc_run (runC_i (exw_input pre))))) 2 =
+       Some (B "__on_kubernetes::pods::added", 2%N, B "pods")) /\
+  length exw_pre1 = length exw_pre2 /\
+  first_defined exw_defined (candidates (hd (mkCtx None None None None None None) exw_rest)) = Some (B "__on_kubernetes::pods::added").
+Proof.
+  split; [|split; vm_compute; reflexivity].
+  intros pre [->| ->]; repeat split; vm_compute; reflexivity.
+Qed.
+
+(* ====================================================================================
+   RECORD OF THE CODE BEFORE THE REPAIR a686454 (not the current code; nothing in C19_Corr
+   refers to it).  C19_WModel is the old hook.sh with the word splitting and the pathname
+   expansion (failglob) bash applied to every unquoted handler name; [amb] is what the shell
+   itself knows under a word.  It violated the property in two ways, both repaired:
+   (frag) a name with blanks fell apart into words and a word was a function of the hook or
+          known to the shell: another binding's handler - or `in`, `true`, ... - ran instead
+          of __main__;
+   (glob) a word of a name was a glob pattern: failglob ended the run with status 1. *)
+Theorem C19_words_meet_spec_partial_before_fix : forall amb i,
+  in_domain (to_input (ic_in i)) = true -> T (to_input (ic_in i)) = false ->
+  names_ok (to_input (ic_in i)) = true ->
+  T_frag (to_input (ic_in i)) amb = false -> T_glob (to_input (ic_in i)) = false ->
+  PW i (runCW_i amb i) = true.
+Proof. exact words_meet_spec_partial. Qed.
+Print Assumptions C19_words_meet_spec_partial_before_fix.
+
+Theorem C19_words_fragment_refuted_before_fix :
+  exists amb i, in_domain (to_input (ic_in i)) = true /\ T (to_input (ic_in i)) = false /\
+    names_ok (to_input (ic_in i)) = true /\ T_glob (to_input (ic_in i)) = false /\
+    T_frag (to_input (ic_in i)) amb = true /\ PW i (runCW_i amb i) = false.
+Proof. exact fragment_refuted. Qed.
+Print Assumptions C19_words_fragment_refuted_before_fix.
+
+Theorem C19_words_keyword_refuted_before_fix :
+  exists amb i, in_domain (to_input (ic_in i)) = true /\ T (to_input (ic_in i)) = false /\
+    names_ok (to_input (ic_in i)) = true /\ T_glob (to_input (ic_in i)) = false /\
+    T_frag (to_input (ic_in i)) amb = true /\ PW i (runCW_i amb i) = false.
+Proof. exact keyword_refuted. Qed.
+Print Assumptions C19_words_keyword_refuted_before_fix.
+
+Theorem C19_words_glob_refuted_before_fix :
+  exists amb i, in_domain (to_input (ic_in i)) = true /\ T (to_input (ic_in i)) = false /\
+    names_ok (to_input (ic_in i)) = true /\ T_frag (to_input (ic_in i)) amb = false /\
+    T_glob (to_input (ic_in i)) = true /\ PW i (runCW_i amb i) = false.
+Proof. exact glob_refuted. Qed.
+Print Assumptions C19_words_glob_refuted_before_fix.
